@@ -190,8 +190,8 @@ func effClient(sc *int64, dial, call *int, def int) (limit int, sources int) {
 }
 
 type limits struct {
-	cSend, sRecv, sSend, cRecv         int
-	cSendSources, cRecvSources         int
+	cSend, sRecv, sSend, cRecv int
+	cSendSources, cRecvSources int
 }
 
 func effective(p plan) limits {
@@ -690,8 +690,10 @@ func runInBubble(p plan) vk.Result {
 		}
 	}
 	if want.stage == "client_recv" {
-		if len(respMsgs) < want.respsSent || len(respMsgs) > len(p.Resps) {
-			return bad("wire shows %d response messages, want %d..%d", len(respMsgs), want.respsSent, len(p.Resps))
+		// The client rejects the oversized response on its 5-byte length prefix and
+		// resets the stream, so that message need not be complete on the wire.
+		if len(respMsgs) < want.respsSeen || len(respMsgs) > len(p.Resps) {
+			return bad("wire shows %d complete response messages, want %d..%d", len(respMsgs), want.respsSeen, len(p.Resps))
 		}
 	} else if want.stage == "server_send" || want.stage == "" {
 		if len(respMsgs) != want.respsSent {
